@@ -139,7 +139,7 @@ theorem resolveLoop_valid (ev : Ev) (step nw : Nat) (now : Int) :
     split
     · have hok1 : IdsOk { ss with waiters := done ++ { w with resolved := some ev } :: rest } nw := hok
       have hag1 : AgreeS o step { ss with waiters := done ++ { w with resolved := some ev } :: rest } := hag
-      obtain ⟨o1, hv1, ha1, hf1⟩ := addOrEnqueue_valid { ev := w.ev } step _ nw now o hok1 hag1
+      obtain ⟨o1, hv1, ha1, hf1⟩ := addOrEnqueue_valid w.replay step _ nw now o hok1 hag1
       exact resolveLoop_valid ev step nw now rest _ _ _ _ o0 o1
         (addOrEnqueue_idsOk _ step _ nw now hok1) ha1 (hv.append hv1)
         (fun t ht w' => (hf1 t ht w').trans (hf t ht w'))
@@ -466,7 +466,7 @@ theorem processWaiterTimeout_valid (cfg : Cfg) (hwf : cfg.WF) (step waiter : Nat
         subst hcname
         have hnw : cfg.nw c.name = c.numWorkers := Cfg.nw_of_mem hwf hcmem
         rw [hnw]
-        obtain ⟨o1, hv1, ha1, hf1⟩ := addOrEnqueue_valid { ev := wt.ev } c.name
+        obtain ⟨o1, hv1, ha1, hf1⟩ := addOrEnqueue_valid wt.replay c.name
           { st.workers c.name with
             waiters := modifyFirst (fun x => x.wid == waiter) (fun x => { x with timedOut := true })
               (st.workers c.name).waiters } c.numWorkers now o (hinv c hcmem) (hag c hcmem)
